@@ -53,10 +53,24 @@ def r12_1(ctx):
     for cb in prog.closures_of(g):
         oc = Origins(cb)
         from ..cfgq import aggregates
+        n_agg = 0
         for ab, si, rv in aggregates(cb, "BashRunner", "BashRunner"):
+            n_agg += 1
             src = peel(oc.operand(rv["ops"][rv["fields"].index("state_directory")]))
             ctx.check(src.kind == "arg" and src.a == 2, "generator-wires-state-dir", stmt_loc(cb, ab, si), "the generated BashRunner uses the directory it was given",
                       "BashRunner.state_directory is %s" % src.show()[:80])
+        if not n_agg:
+            # built through the constructor: BashRunner::new(shell, state_directory) with `new` storing its second parameter
+            for cbb, ct in cb.calls():
+                if (callee_name(ct) or "").endswith("BashRunner::new"):
+                    nw = prog.fn("BashRunner::new")
+                    onw = Origins(nw)
+                    stores = [peel(onw.operand(rv2["ops"][rv2["fields"].index("state_directory")])) for _a, _s, rv2 in aggregates(nw, "BashRunner", "BashRunner")]
+                    param = stores[0].a if len(stores) == 1 and stores[0].kind == "arg" else None
+                    src = peel(oc.operand(ct["args"][param - 1])) if param else None
+                    ctx.check(src is not None and src.kind == "arg" and src.a == 2, "generator-wires-state-dir", cb.loc(cbb),
+                              "the generated BashRunner is constructed with the directory the generator was given (BashRunner::new stores parameter %s)" % param,
+                              "BashRunner::new receives %s as state directory" % (src.show()[:80] if src is not None else "?"))
 
 
 def r12_2(ctx):
@@ -85,7 +99,36 @@ def r12_2(ctx):
             dflt_false = len(tree.kids) < 2 or (tree.kids[1].kind == "const" and tree.kids[1].a.as_bool() is False)
             sel = (sb, be, dflt_false)
     if sel is None:
-        ctx.bad("persist-guard", f.where(), "no branch on testcase.config.detached.unwrap_or(false) selects the persist flag")
+        # match form: `match testcase.config.detached { Some(true) => "0", _ => "1" }`: the bool payload of the Some variant is switched on
+        inner = None
+        for sb, st in switches(f):
+            be = bool_edges(f, sb)
+            pl = st["discr"].get("copy") or st["discr"].get("move")
+            if be is None or pl is None:
+                continue
+            cp = f.canon_place(pl)
+            names = [p_.get("n") for p_ in cp["p"] if isinstance(p_, dict) and "n" in p_]
+            if "detached" in names and any(isinstance(p_, dict) and p_.get("dc") == "Some" for p_ in cp["p"]):
+                inner = (sb, be)
+        if inner is None:
+            ctx.bad("persist-guard", f.where(), "no branch on testcase.config.detached (unwrap_or(false) / Some(true) arm) selects the persist flag")
+        else:
+            sb, (tt, tf) = inner
+            lit_blocks = {}
+            for bi, blk in enumerate(f.blocks):
+                for st in blk["stmts"]:
+                    if st["k"] == "assign" and st["rv"]["k"] == "use" and "const" in st["rv"]["op"]:
+                        sv = const_str_of(prog, f, peel(o.rvalue(st["rv"])))
+                        if sv in ("0", "1"):
+                            lit_blocks.setdefault(sv, []).append(bi)
+            via_t = set(f.reachable(tt))
+            without_t = set(f.reachable(0, removed_edges=[(sb, tt)]))
+            zero, one = lit_blocks.get("0", []), lit_blocks.get("1", [])
+            good = len(zero) == 1 and zero[0] in via_t and zero[0] not in without_t and bool(one) and all(b_ in without_t for b_ in one) and \
+                not any(b_ in via_t and b_ not in without_t for b_ in one)
+            ctx.check(good, "persist-guard", f.loc(sb),
+                      "a detached test case (detached == Some(true)) gets persist_state=0 (leaves no state behind), every other one 1",
+                      "persist_state literals: \"0\" in blocks %s, \"1\" in blocks %s - not split by the Some(true) arm" % (zero, one))
     else:
         sb, (tt, tf), dflt_false = sel
 
